@@ -674,6 +674,18 @@ class Interp:
             h = self.models.lookup_suffix(n)
             if h is not None:
                 return h
+        m = re.match(r'^<&*(\w+) as PartialEq>::(eq|ne)$', n)
+        if m and (m.group(1) in self.prog.enums):
+            # #[derive(PartialEq)] on a field-less enum of the crate (the derived impl has no source header to map its
+            # MIR item by): equality of discriminants
+            neg = m.group(2) == 'ne'
+
+            def enum_eq(I, a, b, _neg=neg):
+                a, b = deref(a), deref(b)
+                if not (isinstance(a, Enum) and isinstance(b, Enum)) or a.f or b.f:
+                    raise Unsupported('derived PartialEq on an enum with fields')
+                return (a.v != b.v) if _neg else (a.v == b.v)
+            return enum_eq
         raise Unsupported('call to unknown function: %s   [%s]' % (n, callee))
 
     # ------------------------------------------------------------ places
